@@ -54,6 +54,9 @@ class LiveRender:
     def __rich_console__(
         self, console: Console, options: ConsoleOptions
     ) -> RenderResult:
+        # the frame is laid out for the console, not with the options of the print it rides on
+        # (soft_wrap, Console.out and print(width=...) would otherwise reshape the display)
+        options = console.options
         style = console.get_style(self.style)
         lines = console.render_lines(self.renderable, options, style=style, pad=False)
         _Segment = Segment
